@@ -24,6 +24,9 @@ type Scenario struct {
 	Sched     verifsim.Config `json:"sched"`
 	Spec      json.RawMessage `json:"spec"`
 	Expect    string          `json:"expect,omitempty"` // violation signature this file reproduces
+	// ExpectCanon: canonical results observed elsewhere (a history of length one in a fresh
+	// process) that this scenario's results are compared with (determinism across histories).
+	ExpectCanon map[string]string `json:"expect_canon,omitempty"`
 	Note      string          `json:"note,omitempty"`
 }
 
@@ -52,6 +55,7 @@ type Result struct {
 	Extra      map[string]int  `json:"extra,omitempty"`
 	Slots      int             `json:"slots,omitempty"`       // C20: crash slots executed
 	Exhaustive bool            `json:"exhaustive,omitempty"`
+	Canon      map[string]string `json:"canon,omitempty"` // key -> canonical result hash, compared across runs by the driver
 	Cases      int             `json:"cases,omitempty"` // distinct non-trivial cases this result stands for (default 1)
 }
 
@@ -128,6 +132,12 @@ type Engine interface {
 	Runs(prop, tier string) int
 	// Describe returns static evidence text.
 	Describe(prop string) Description
+}
+
+// CanonEngine is implemented by engines whose results are compared across runs.
+type CanonEngine interface {
+	// SoloScenario returns the history of length one that produces the result named by key.
+	SoloScenario(prop string, verifSeed int64, key string) *Scenario
 }
 
 type Description struct {
